@@ -17,6 +17,9 @@ EXTENDS BVRef, TraceCommon
 VARIABLES l, cur
 vars == <<l, cur>>
 
+\* the j-th item after the pair p of an iterator over the set (unset) bits
+FollowOne(B, p, j) == IF p = NoPair THEN NoPair ELSE LET s == SelectF(B, p[1] + j) IN IF s = None THEN NoPair ELSE <<p[1] + j, s>>
+FollowZero(B, p, j) == IF p = NoPair THEN NoPair ELSE LET s == SelectZeroF(B, p[1] + j) IN IF s = None THEN NoPair ELSE <<p[1] + j, s>>
 Answer(B, op, a) ==
     CASE op = "get"   -> IF GetF(B, a) THEN 1 ELSE 0
       [] op = "rank"  -> RankF(B, a)
@@ -27,6 +30,13 @@ Answer(B, op, a) ==
       [] op = "sel0i" -> LET s == SelectZeroF(B, a) IN IF s = None THEN NoPair ELSE <<a, s>>
       [] op = "pred"  -> PredF(B, a)
       [] op = "succ"  -> SuccF(B, a)
+      \* the iterators returned by the queries keep going in rank order
+      [] op = "seli2"  -> FollowOne(B, LET s == SelectF(B, a) IN IF s = None THEN NoPair ELSE <<a, s>>, 1)
+      [] op = "sel0i2" -> FollowZero(B, LET s == SelectZeroF(B, a) IN IF s = None THEN NoPair ELSE <<a, s>>, 1)
+      [] op = "pred2" -> FollowOne(B, PredF(B, a), 1)
+      [] op = "succ2" -> FollowOne(B, SuccF(B, a), 1)
+      [] op = "pred3" -> FollowOne(B, PredF(B, a), 2)
+      [] op = "succ3" -> FollowOne(B, SuccF(B, a), 2)
 
 \* The domain in which the property defines an answer.
 InDomain(B, op, a) ==
